@@ -16,7 +16,7 @@ VARIANTS = [
     {"name": "fixed(VFixed)", "findings": []},
 ]
 RULE = ("sink-level cases = (batch length n, set of permanently failing positions, failing call numbers, maxItems, state of "
-        "lastError/recursionDepth/handler count before the call): every subset of failing positions for n <= 6 (quick) or n <= 8 "
+        "lastError/recursionDepth/handler count before the call): every subset of failing positions for n <= 5 (quick) or n <= 8 "
         "(thorough) x maxItems 0..3, plus PRNG samples up to n = 64 with stale state and transient failures; job-level cases = "
         "(source length, batch size, handlers log/reRun, maxItems, maxRetries, failing entities, failing calls, kill point, entities "
         "appended between runs, extra cron firings) from the PRNG plus fixed witnesses; a case is non-trivial when the inner sink "
@@ -42,10 +42,10 @@ def sink(n, bad=(), failcalls=(), k=0, pre_last=-1, pre_depth=0, pre_count=0):
 
 
 def job(n, batch, log=True, k=0, rerun=False, retries=0, delay=0, bad=(), failcalls=(), kill=-1, adds=(), crons=0,
-        timer=False, burst=0):
+        timer=False, burst=0, full=False):
     return {"kind": "job", "n": n, "batch": batch, "log": log, "maxItems": k, "rerun": rerun, "maxRetries": retries,
             "retryDelay": delay, "bad": sorted(bad), "failcalls": sorted(failcalls), "killAt": kill, "adds": list(adds),
-            "crons": crons, "timer": timer, "burst": burst}
+            "crons": crons, "timer": timer, "burst": burst, "full": full}
 
 
 def witness_cases():
@@ -70,6 +70,13 @@ def witness_cases():
         # further failing runs arrive while a re-run is pending: at most maxRetries re-executions in total
         job(4, 100, False, 0, True, 1, 0, bad=[1], burst=2), job(4, 100, False, 0, True, 2, 0, bad=[1], burst=3),
         job(6, 3, True, 0, True, 1, 0, bad=[2], burst=2),
+        # fullsync triggers: kill between two batches with a reRun handler (no re-run after a kill), failures, re-runs
+        job(6, 2, False, 0, True, 3, 0, kill=1, full=True), job(8, 3, True, 0, True, 2, 0, bad=[4], kill=2, full=True),
+        job(6, 2, True, 0, True, 2, 0, bad=[3], full=True), job(5, 2, False, 0, True, 1, 0, failcalls=[1], full=True, crons=1),
+        # flaky sink: a batch refused once, its halves accepted: everything delivered, nothing reported => recorded ok, no re-run
+        job(8, 4, True, 0, True, 3, 0, failcalls=[0]), job(8, 4, True, 0, True, 3, 0, failcalls=[1]),
+        job(8, 4, True, 0, True, 3, 0, failcalls=[0, 1]), job(8, 4, True, 0, True, 3, 0, failcalls=[0, 2]),
+        job(12, 100, True, 2, True, 2, 0, failcalls=[0, 3], bad=[7]),
     ]
 
 
@@ -110,10 +117,10 @@ def gen_job_random(rng, count, maxn):
         log = rng.chance(4, 5)
         rerun = rng.chance(2, 3)
         bad = rand_subset(rng, tot, rng.choice([0, 1, 1, 2, 3]))
-        fc = rand_subset(rng, 12, rng.choice([1, 2])) if rng.chance(1, 4) else []
+        fc = rand_subset(rng, 12, rng.choice([1, 2])) if rng.chance(1, 3) else []
         kill = rng.range(0, 8) if rng.chance(1, 6) else -1
         out.append(job(n, batch, log, rng.choice([0, 0, 0, 1, 2, 3, -2]), rerun, rng.choice([0, 1, 2, 3, -1]),
-                       rng.choice([0, 1, 7]), bad, fc, kill, adds, rng.choice([0, 0, 1, 2])))
+                       rng.choice([0, 1, 7]), bad, fc, kill, adds, rng.choice([0, 0, 1, 2]), full=rng.chance(1, 4)))
     return out
 
 
@@ -129,12 +136,12 @@ def gen_burst(rng, count):
 def gen(rng, tier):
     out = []
     if tier == "quick":
-        for n in range(0, 7):
+        for n in range(0, 6):
             for bad in subsets(n):
                 for k in range(0, 4):
                     out.append(sink(n, bad, [], k))
-        out += gen_sink_random(rng, 150, 40)
-        out += gen_job_random(rng, 220, 14)
+        out += gen_sink_random(rng, 100, 40)
+        out += gen_job_random(rng, 160, 14)
         out += gen_burst(rng, 2)
         return out
     if tier == "search":
@@ -188,13 +195,13 @@ def term(c, o):
         for r in o.get("runs") or []])
     return ("{| t_job := %s; t_n := %d; t_bad := %s; t_failcalls := %s; t_maxItems := %s; t_preLast := %s; t_preDepth := %d; "
             "t_preCount := %d; t_batch := %s; t_log := %s; t_rerun := %s; t_maxRetries := %s; t_retryDelay := %s; t_killAt := %s; "
-            "t_adds := %s; t_crons := %d; t_timer := %s; t_burst := %d; o_starts := %d; o_outcome := %d; o_res := %d; o_ev := %s; o_last := %s; o_lastSet := %s; o_depth := %s; "
+            "t_adds := %s; t_crons := %d; t_timer := %s; t_full := %s; t_burst := %d; o_starts := %d; o_outcome := %d; o_res := %d; o_ev := %s; o_last := %s; o_lastSet := %s; o_depth := %s; "
             "o_count := %s; o_calls := %s; o_delay := %s; o_runs := %s; o_delayOk := %s |}" % (
                 vlib.coq_bool(c["kind"] == "job"), c["n"], zl(c["bad"]), zl(c["failcalls"]), vlib.zlit(c["maxItems"]),
                 vlib.zlit(g("preLast", -1)), g("preDepth"), g("preCount"), vlib.zlit(g("batch", 1)),
                 vlib.coq_bool(g("log", False)), vlib.coq_bool(g("rerun", False)), vlib.zlit(g("maxRetries")),
                 vlib.zlit(g("retryDelay")), vlib.zlit(g("killAt", -1)), zl(g("adds", [])), g("crons"),
-                vlib.coq_bool(g("timer", False)), g("burst"), o.get("starts", 0), 0 if o.get("outcome") == "ok" else 1, o.get("res", 9), evs(o.get("ev")),
+                vlib.coq_bool(g("timer", False)), vlib.coq_bool(g("full", False)), g("burst"), o.get("starts", 0), 0 if o.get("outcome") == "ok" else 1, o.get("res", 9), evs(o.get("ev")),
                 vlib.zlit(o.get("last", -9)), vlib.coq_bool(o.get("lastSet", False)), vlib.zlit(o.get("depth", -1)), vlib.zlit(o.get("count", -1)),
                 vlib.zlit(o.get("calls", -1)), vlib.zlit(o.get("delay", -1)), runs,
                 vlib.coq_bool(o.get("delayOk", False) or c["kind"] != "job")))
@@ -224,6 +231,8 @@ def attribute(c, o):
     k = c["maxItems"] if c["maxItems"] > 0 else 0
     b = c["batch"] if c["batch"] >= 1 else 10000
     for r in o.get("runs") or []:
+        if c.get("full"):
+            tok = 0
         bads = [x for x in range(tok, n) if x in bad]
         reps = [e for e in r["ev"] if e[0] == 1]
         if tok >= n and not reps and r["err"] >= 0:
